@@ -75,9 +75,22 @@ def d2_no_truncating_open(ctx, c):
     ok = len(augs) == 1 and isinstance(augs[0].value, ast.Constant) and augs[0].value.value == 'b'
     rets = [n for n in own_nodes(ca.node) if isinstance(n, ast.Return)]
     ok = ok and all(norm(r.value) == 'accessmode' for r in rets)
-    gate = [n for n in own_nodes(ca.node) if isinstance(n, ast.If) and always_raises(n.body)
-            and norm(n.test) == 'accessmode not in validmodes']
-    ok = ok and bool(gate) and all(must_precede(ca, r, gate) for r in rets)
+    # path conditions: with a mode that is not one of the valid modes no return is reachable (any layout / polarity)
+    from ..pathcond import reach_under
+    from ..rules import eval_bool
+
+    def _invalid(t):
+        def atom(x):
+            if isinstance(x, ast.Compare) and len(x.ops) == 1 and isinstance(x.ops[0], (ast.In, ast.NotIn)) and \
+                    norm(x.left) == 'accessmode' and norm(x.comparators[0]) == 'validmodes':
+                return isinstance(x.ops[0], ast.NotIn)
+            return None
+        return eval_bool(t, atom)
+    g_ = cfg_of(ca)
+    may = reach_under(ca, _invalid)
+    mentions = any(isinstance(x, ast.Compare) and norm(x.left) == 'accessmode' and norm(x.comparators[0]) == 'validmodes'
+                   for x in own_nodes(ca.node) if isinstance(x, ast.Compare) and len(x.ops) == 1)
+    ok = ok and mentions and not any(g_.node_for(r) in may for r in rets)
     ctx.decide(ok, 'R-TABLE', 'D2', ca, None, 'mode-strings',
                "check_accessmode returns one of the valid modes ('r', 'r+'), optionally with 'b' appended: the data file is never opened in a truncating mode through it",
                detail='check_accessmode can return a mode other than r / r+ (+b)')
